@@ -101,6 +101,74 @@ def run_translators(prop):
     return outs
 
 
+# ------------------------------------------------------------------ Coq builder (no shared Makefile: other
+# builders add and remove files under theories/ all the time; each target is built from its own closure)
+
+_dep_cache = {}
+
+
+def coq_deps(vfile):
+    """theories-relative .v dependencies of a theories-relative .v file (via coqdep)."""
+    if vfile in _dep_cache:
+        return _dep_cache[vfile]
+    rc, out = sh(["coqdep", "-Q", "theories", "ZV", vfile], cwd=COQ, timeout=120)
+    deps = []
+    for line in out.splitlines():
+        if ":" not in line or not line.split(":")[0].strip().startswith(vfile[:-2] + ".vo"):
+            continue
+        for tok in line.split(":", 1)[1].split():
+            if tok.endswith(".vo") and tok.startswith("theories/"):
+                d = tok[:-1]
+                if d != vfile and d not in deps:
+                    deps.append(d)
+    _dep_cache[vfile] = deps
+    return deps
+
+
+def coq_closure(vfile):
+    """dependency closure in build order (dependencies first)."""
+    order, seen = [], set()
+
+    def visit(f):
+        if f in seen:
+            return
+        seen.add(f)
+        for d in coq_deps(f):
+            visit(d)
+        order.append(f)
+
+    visit(vfile)
+    return order
+
+
+def coq_build(vfile, timeout=1500):
+    """Compile vfile (theories-relative) and whatever it needs, when out of date. Returns (rc, log)."""
+    t_end = time.time() + timeout
+    log_all = ""
+    built = set()
+    for f in coq_closure(vfile):
+        src = os.path.join(COQ, f)
+        if not os.path.exists(src):
+            return 1, log_all + "\nmissing source file " + f
+        vo = src + "o"
+        stale = (not os.path.exists(vo)) or os.path.getmtime(vo) < os.path.getmtime(src)
+        if not stale:
+            for d in coq_deps(f):
+                dvo = os.path.join(COQ, d) + "o"
+                if d in built or (os.path.exists(dvo) and os.path.getmtime(dvo) > os.path.getmtime(vo)):
+                    stale = True
+                    break
+        if not stale:
+            continue
+        rc, out = sh(["coqc", "-q", "-Q", "theories", "ZV", "-w", "-notation-overridden,-deprecated", f], cwd=COQ,
+                     timeout=max(30, t_end - time.time()))
+        log_all += out
+        if rc != 0:
+            return rc, log_all
+        built.add(f)
+    return 0, log_all
+
+
 def theorem_names(pid):
     p = os.path.join(COQ, "theories", "Properties", pid + ".v")
     if not os.path.exists(p):
@@ -109,36 +177,19 @@ def theorem_names(pid):
 
 
 def closure_files(pid):
-    """Source files the property's theorems depend on (from coqdep's .Makefile.d), for the audit."""
-    dep = os.path.join(COQ, ".Makefile.d")
-    deps = {}
-    if os.path.exists(dep):
-        for line in open(dep):
-            if ":" not in line:
-                continue
-            lhs, rhs = line.split(":", 1)
-            tg = [x for x in lhs.split() if x.endswith(".vo")]
-            if not tg:
-                continue
-            deps[tg[0]] = [x for x in rhs.split() if x.endswith(".vo")]
-    start = "theories/Properties/%s.vo" % pid
-    seen, todo = set(), [start]
-    while todo:
-        x = todo.pop()
-        if x in seen:
-            continue
-        seen.add(x)
-        todo.extend(deps.get(x, []))
-    return sorted(x[:-1] for x in seen if x.startswith("theories/"))
+    """Source files the property's theorems depend on, for the audit."""
+    return coq_closure("theories/Properties/%s.v" % pid)
 
 
 def coq_check(pid, thorough=False):
     """Build Properties/<id>.vo, re-run coqc on it for fresh Print Assumptions, audit. Returns dict."""
     t0 = time.time()
-    coq_project()
     res = {"ok": False, "theorems": theorem_names(pid), "axioms": [], "log": "", "failed_at": None,
-           "audit": [], "checker_cmd": "make -C coq theories/Properties/%s.vo && coqc -Q theories ZV theories/Properties/%s.v" % (pid, pid)}
-    rc, out = sh(["make", "-j%d" % NCPU, "theories/Properties/%s.vo" % pid], cwd=COQ, timeout=1500)
+           "audit": [], "checker_cmd": "coqc -Q theories ZV <dependency closure of theories/Properties/%s.v in order> && coqc -Q theories ZV theories/Properties/%s.v" % (pid, pid)}
+    if not os.path.exists(os.path.join(COQ, "theories", "Properties", pid + ".v")):
+        res["failed_at"] = "theories/Properties/%s.v does not exist" % pid
+        return res
+    rc, out = coq_build("theories/Properties/%s.v" % pid)
     res["log"] = out[-6000:]
     if rc != 0:
         m = re.search(r'File "\./(theories/[^"]+)", line (\d+)', out)
@@ -236,7 +287,7 @@ def model_build(pid, run_module, fn="run"):
     """Extract <run_module>.run to OCaml (ExtrOcamlBasic only) and link it with the generic driver."""
     d = os.path.join(BUILD, "ml", pid)
     os.makedirs(d, exist_ok=True)
-    rc, out = sh(["make", "-j%d" % NCPU, "theories/%s.vo" % run_module.replace(".", "/")], cwd=COQ, timeout=1500)
+    rc, out = coq_build("theories/%s.v" % run_module.replace(".", "/"))
     if rc != 0:
         return None, out[-4000:]
     open(os.path.join(d, "extract.v"), "w").write(
